@@ -206,7 +206,7 @@ def run(chk):
     chk.correspondence("GMMMachine.log_likelihood/log_weighted_likelihood ~ MF.log_likelihood/MF.lwl", len(terms), bad, info)
     if bad:
         chk.notes["first_bad_meta"] = [metas[b] for b in bad[:5]]
-    chk.partial = ["gauss1_integral_partial: integrates-to-one reduced to the Gaussian integral (hypothesis of the lemma)",
+    chk.partial = ["integrates-to-one is proved for each one-dimensional Gaussian factor (gauss1_integral, with the Gaussian integral itself proved in GaussIntAux.v); the product over features as a multiple integral is not formalised",
                    "binary64 finiteness in the tails is exhibited by the float model and the implementation runs, not proved"]
     return chk.finish(
         rule="structured generator: C in {1..8}, D in {1,2,3,5} and 60/150/400 (product of variances outside the binary64 range), single samples as vectors and in batches, feature scales unit/1e-3..1e3/1e-6..1e6, variance floors none/scalar/per-feature, "
